@@ -17,11 +17,12 @@ from .e1_srcmodel import dotted
 
 
 class Arr:
-    __slots__ = ("s", "r")
+    __slots__ = ("s", "r", "one_d")
 
-    def __init__(self, s0=None, s1=None, r0=None, r1=None):
+    def __init__(self, s0=None, s1=None, r0=None, r1=None, one_d=False):
         self.s = (s0, s1)
         self.r = (r0, r1)
+        self.one_d = one_d      # known to be 1-D (result of .ravel()): broadcasts along the LAST axis of a 2-D operand
 
     def __repr__(self):
         return f"Arr{self.s}{self.r if any(self.r) else ''}"
@@ -82,7 +83,18 @@ class Typer:
         self.checked = []     # the nodes of those operations
         self.half_space = {"S2": "K"}
         self.slices = {}      # (lower text, upper text) -> Idx   e.g. ("nrb", None): Idx("N", "NR")
+        self.equiv = []       # stack of pairs of spaces that coincide on the current path (e.g. N ~ K where there are no rf modes)
+        self.branch_equiv = {}  # normalised test text -> (pair valid in body or None, pair valid in orelse or None)
         self.attr_stores = []  # (dotted, type, node)
+
+    def _ne(self, a, b):
+        """spaces provably different on the current path"""
+        if a == b:
+            return False
+        for x, y in self.equiv:
+            if {a, b} == {x, y}:
+                return False
+        return True
 
     def _res(self, node):
         self.resolved += 1
@@ -177,7 +189,7 @@ class Typer:
             if len(kinds) == 1 and isinstance(kinds[0], Idx):
                 inner = kinds[0]
                 self._res(node)
-                if base.cod is not None and inner.dom is not None and base.cod != inner.dom:
+                if base.cod is not None and inner.dom is not None and self._ne(base.cod, inner.dom):
                     self.report("index-compose", node, f"`{ast.unparse(node)}`: {ast.unparse(node.value)} enumerates space "
                                 f"{base.cod} but is indexed with positions relative to {inner.dom}")
                     return None
@@ -237,7 +249,7 @@ class Typer:
         return Arr(s[0], s[1], r[0], r[1])
 
     def _chk(self, node, space, ix, axis):
-        if space is not None and ix.dom is not None and space != ix.dom:
+        if space is not None and ix.dom is not None and self._ne(space, ix.dom):
             self.report("index-space", node,
                         f"`{ast.unparse(node)}`: axis {axis} of `{ast.unparse(node.value)}` lives in space {space} but the index "
                         f"holds positions relative to space {ix.dom}")
@@ -248,9 +260,14 @@ class Typer:
             return self.matmul(node, a, b)
         if isinstance(a, Arr) and isinstance(b, Arr):
             sa, sb = a.s[0], b.s[0]
+            # a 1-D operand lines up with the last axis of a 2-D operand
+            if b.one_d and not a.one_d and a.s[1] is not None:
+                sa = a.s[1]
+            elif a.one_d and not b.one_d and b.s[1] is not None:
+                sb = b.s[1]
             if sa is not None and sb is not None:
                 self._res(node)
-                if sa != sb:
+                if self._ne(sa, sb):
                     self.report("elementwise-space", node, f"`{ast.unparse(node)}`: left operand rows in space {sa}, right operand rows in space {sb}")
             ra, rb = a.r[0], b.r[0]
             # roles survive only sums of like quantities; a coefficient product is neither displacement nor velocity
@@ -274,7 +291,7 @@ class Typer:
         if isinstance(a, Arr) and isinstance(b, Arr):
             if a.s[1] is not None and b.s[0] is not None:
                 self._res(node)
-                if a.s[1] != b.s[0]:
+                if self._ne(a.s[1], b.s[0]):
                     self.report("matmul-space", node, f"`{ast.unparse(node)}`: columns in space {a.s[1]}, operand rows in space {b.s[0]}")
             if a.r[1] and b.r[0]:
                 self._res(node)
@@ -293,7 +310,7 @@ class Typer:
             if isinstance(A, Arr) and isinstance(x, Arr):
                 if A.s[0] is not None and x.s[0] is not None:
                     self._res(node)
-                    if A.s[0] != x.s[0]:
+                    if self._ne(A.s[0], x.s[0]):
                         self.report("solve-space", node, f"`{ast.unparse(node)}`: matrix in space {A.s[0]}, right-hand side rows in space {x.s[0]}")
                 return Arr(A.s[0] if A.s[0] is not None else x.s[0], x.s[1], x.r[0], x.r[1])
             if isinstance(x, Arr):
@@ -309,7 +326,9 @@ class Typer:
         if isinstance(node.func, ast.Attribute):
             base = self.ty(node.func.value)
             if isinstance(base, Arr):
-                if node.func.attr in ("copy", "ravel", "conj", "astype", "squeeze"):
+                if node.func.attr == "ravel":
+                    return Arr(base.s[0], None, base.r[0], None, one_d=True)
+                if node.func.attr in ("copy", "conj", "astype", "squeeze"):
                     return base
                 if node.func.attr == "reshape":
                     return Arr(base.s[0], None, base.r[0], None)
@@ -337,16 +356,25 @@ class Typer:
                 cur = self.ty(st.target)
                 if isinstance(cur, Arr) and isinstance(v, Arr) and cur.s[0] and v.s[0]:
                     self._res(st)
-                    if cur.s[0] != v.s[0]:
+                    if self._ne(cur.s[0], v.s[0]):
                         self.report("elementwise-space", st, f"`{ast.unparse(st)}`: target rows in space {cur.s[0]}, value rows in space {v.s[0]}")
         elif isinstance(st, ast.If) and ast.unparse(st.test).replace(" ", "") in self.cond:
             self.run(st.body if self.cond[ast.unparse(st.test).replace(" ", "")] else st.orelse)
         elif isinstance(st, ast.If):
             env0 = dict(self.env)
+            be = self.branch_equiv.get(ast.unparse(st.test).replace(" ", ""), (None, None))
+            if be[0]:
+                self.equiv.append(be[0])
             self.run(st.body)
+            if be[0]:
+                self.equiv.pop()
             env1 = self.env
             self.env = dict(env0)
+            if be[1]:
+                self.equiv.append(be[1])
             self.run(st.orelse)
+            if be[1]:
+                self.equiv.pop()
             env2 = self.env
             merged = {}
             for k in set(env1) | set(env2):
@@ -403,7 +431,7 @@ class Typer:
         if isinstance(tt, Arr) and isinstance(v, Arr):
             if tt.s[0] is not None and v.s[0] is not None:
                 self._res(st)
-                if tt.s[0] != v.s[0]:
+                if self._ne(tt.s[0], v.s[0]):
                     self.report("store-space", st, f"`{ast.unparse(st)[:120]}`: target rows select space {tt.s[0]}, stored value rows live in space {v.s[0]}")
             base = self.ty(target.value)
             # role of the stored value against the role of the target array (d vs v)
